@@ -220,7 +220,6 @@ def check_concatenation(ctx, result, kit, ns, taxa, sources, where):
                   "C19.concat_subset_label",
                   lambda: "%s: labels %r: subset for source %d (label %r) should cover %r; recorded %r" % (
                       where, labels, k, label, ranges[k], sorted((kk, sorted(v)) for kk, v in subs.items())))
-        # ... and exporting it gives the source back
     return want, subs
 
 
@@ -260,10 +259,10 @@ OTHER = dict(k=K, off=st.sampled_from([1, 1, 1, 1, 2, 2, 0]), foreign=st.sampled
 ROWSET = dict(k=K, taxa=TAXA, foreign_taxon=st.sampled_from([False, False, True]), as_iter=st.booleans())
 RULES = {
     "concatenate": fd(sel=st.lists(K, min_size=1, max_size=3), foreign_at=st.sampled_from([None] * 5 + [0, 1, 2]),
-                      store=STORE, label=MLBL),
+                      store=STORE, label=MLBL, prep=st.booleans()),
     "export_indices": fd(k=K, idx=IDX, store=STORE, label=MLBL),
-    "export_subset": fd(k=K, which=st.integers(0, 5), by=st.sampled_from(["label", "label", "label", "object", "object", "fresh", "missing"]),
-                        idx=IDX, store=STORE, label=MLBL),
+    "export_subset": fd(k=K, which=st.integers(0, 5), idx=IDX, store=STORE, label=MLBL,
+                        by=st.sampled_from(["label", "label", "label", "object", "object", "fresh", "missing"])),
     "new_subset": fd(k=K, label=st.integers(0, len(SUB_LABELS) - 1), idx=IDX),
     "fill": fd(**PAD),
     "fill_taxa": fd(k=K),
@@ -389,6 +388,11 @@ class Interp(object):
     def op_concatenate(self, a, d):
         ctx = self.ctx
         sel = [self.slot(k) for k in a["sel"]]
+        if a.get("prep"):
+            # bring the chosen matrices into concatenate's documented domain with a (checked) pack
+            for k in a["sel"]:
+                if not self.slot(k).complete_rect(self.n):
+                    self.op_pack({"k": k, "v": a["label"], "size": None, "append": True}, d)
         if not all(s.complete_rect(self.n) for s in sel):
             ctx.cls("concatenate:skipped_incomplete_or_ragged_source")
             return
@@ -882,7 +886,8 @@ def concat_streams_case(ctx, case):
     for t in res.taxon_namespace:
         if t in res:
             got[t.label] = list(res[t].symbols_as_list())
-    ctx.check(got == dict(("t%d" % i, r) for i, r in want.items()), "concat_streams_rows", "C19.concat_streams_rows",
+    want = dict(("t%d" % i, r) for i, r in want.items())
+    ctx.check(got == want and len(res) == n, "concat_streams_rows", "C19.concat_streams_rows",
               lambda: "files %r: got %r want %r" % (texts, got, want))
     subs = sorted(tuple(sorted(cs.character_indices)) for cs in res.character_subsets.values())
     ctx.check(subs == sorted(ranges), "concat_streams_subsets", "C19.concat_streams_subsets",
@@ -903,8 +908,8 @@ SUBCHECKS = {
 def run(ctx):
     quick = ctx.tier == "quick"
     runner.run_items(ctx, "concat_patterns", pattern_items(ctx.tier), concat_case)
-    runner.run_given(ctx, "concat_random", CONCAT_RANDOM, concat_case, (1600 if quick else 24000) // ctx.nshards)
+    runner.run_given(ctx, "concat_random", CONCAT_RANDOM, concat_case, (800 if quick else 24000) // ctx.nshards)
     runner.run_given(ctx, "concat_streams", CONCAT_STREAMS, concat_streams_case, (400 if quick else 4000) // ctx.nshards)
-    total = 2000 if quick else 40000
+    total = 1400 if quick else 40000
     steps = 30 if quick else 60
     stateful.run_machine(ctx, "machine", Interp, INIT, RULES, total // ctx.nshards, steps)
